@@ -123,7 +123,11 @@ func (e *Encoder) siteMapUpdate(in *ssa.MapUpdate, st *State, pc string) {
 		}
 	}
 	sname := e.siteName("mapupdate", what)
-	e.runSites(sname, st, pc, map[string]Val{"key": e.val(in.Key), "mapkey": e.val(in.Key), "val": e.val(in.Value), "map": e.val(in.Map)})
+	extra := map[string]Val{"key": e.val(in.Key), "mapkey": e.val(in.Key), "val": e.val(in.Value), "map": e.val(in.Map)}
+	if e.mapPrev != nil {
+		extra["prev"], extra["had"] = *e.mapPrev, *e.mapHad // the entry's value / presence BEFORE the update
+	}
+	e.runSites(sname, st, pc, extra)
 }
 
 // lockEvent / atomicEvent are hooks for the monitor and atomic-transition disciplines.
